@@ -774,6 +774,11 @@ def judge_drain(sched, conns, obs, rec):
                 continue
             if r["sent"] == "z":
                 rec.count("b:grey:bytes-in-the-same-instant:" + ("handled" if st else "ignored"))
+            if r["sent"] == "pre-queued" and st is not None and st[0] > t0 + eps:
+                # parsed and queued behind a request that was still being handled at the instant: its own handling had
+                # not begun, so starting it afterwards is accepting a new request during shutdown
+                v.append(("drain:queued-request-handler-started-after-shutdown",
+                          f"connection {c.idx} ({ty}): request {rid} was only queued at the instant; its handler started at t0+{st[0] - t0:.3f}"))
             if st is None:
                 if r["sent"] in ("pre-queued", "instant", "z", "split"):
                     rec.count(f"b:recorded:request-{r['sent']}-never-handled")
